@@ -155,6 +155,12 @@ def all_configs(reorder=False):
             out.append(dict(cls=cls, kw=kw, cache=True))
             out.append(dict(cls=cls, kw=kw, cache=True, fill=True, threads=4))
             out.append(dict(cls=cls, kw=dict(sort_gids=True), cache=False))
+            # both knobs together: lists sorted in place inside the cache's
+            # per-thread arrays (lazily filled, and filled by 4 threads)
+            out.append(dict(cls=cls, kw=dict(sort_gids=True), cache=True,
+                            always=True))
+            out.append(dict(cls=cls, kw=dict(sort_gids=True), cache=True,
+                            fill=True, threads=4))
     for i, c in enumerate(out):
         c['ci'] = i
     return out
